@@ -253,11 +253,13 @@ def compare_eager(chunked_res, eager_res, orc=None):
     a, b = chunked_res["result"], eager_res["result"]
     if chunked_res["shape"] != eager_res["shape"]:
         return [("<shape>", chunked_res["shape"], eager_res["shape"])]
-    for i, (x, y) in enumerate(zip(a, b)):
-        if i not in unspec and not I.same(x, y):
-            bad.append((i, x, y))
     ga = [[I.unf(x) for x in g] for g in chunked_res["groups"]]
     gb = [[I.unf(x) for x in g] for g in eager_res["groups"]]
+    for i, (x, y) in enumerate(zip(a, b)):
+        if i not in unspec and not I.same(x, y):
+            # report the group LABEL (as compare_oracle does), not the slot index
+            lab = gb[0][i % len(gb[0])] if len(gb) == 1 and gb[0] else i
+            bad.append((lab, x, y))
     if not all(len(x) == len(y) and all(I.same(p, q) if not isinstance(p, str) else p == q for p, q in zip(x, y)) for x, y in zip(ga, gb)):
         bad.append(("<labels>", chunked_res["groups"], eager_res["groups"]))
     return bad
